@@ -468,6 +468,13 @@ class TreeMachine(RuleBasedStateMachine):
             self.fail(f"{tag}-return-value", f"{op}: returned {r1!r}, child is at index {r2!r}")
         if op[0] in ("shift", "rep") and len(self.m.kids[op[1]]) >= 3:
             self.nontrivial = True
+        # children that left a parent keep their parent link (remove_child / replace_child do not clear it)
+        if not hasattr(self, "former"):
+            self.former = {}
+        if op[0] == "rem" and r2 is None:
+            self.former[op[2]] = op[1]
+        elif op[0] == "rep" and r2 is None:
+            self.former[op[2]] = op[1]
 
     def free(self, p):
         return [c for c in range(len(self.names)) if c != p and c not in self.dead and self.m.par[c] is None
@@ -525,6 +532,19 @@ class TreeMachine(RuleBasedStateMachine):
         x = data.draw(st.sampled_from(cands))
         self.do(("copy", x))
         self.names = self.m.names
+
+    @rule(data=st.data())
+    def stale_replace(self, data):
+        """a failing replace whose 'old child' is a FORMER child of that parent (its parent link still points there): it
+        must fail and leave the tree as it was, like any other failing edit"""
+        cands = [(c, p) for c, p in getattr(self, "former", {}).items()
+                 if c not in self.dead and p not in self.dead and c not in self.m.kids[p]]
+        if not cands:
+            return
+        c, p = data.draw(st.sampled_from(cands))
+        f = [x for x in self.free(p) if x != c and self.m.names[x] == self.m.names[c]]
+        if f:
+            self.do(("badrep", p, c, data.draw(st.sampled_from(f))))
 
     @rule(data=st.data())
     def failing(self, data):
